@@ -544,7 +544,7 @@ func Run(r *vf.Run) {
 	var cases []*pcase
 
 	// declgen packages, all inside one scratch module (so that the CLI can lint them in one go)
-	nGen := r.Pick(60, 2000)
+	nGen := r.Pick(60, 800)
 	// one scratch module "example.com": unused/testdata at its root (as the repo's test helper lays it out),
 	// the generated packages under dg/, a tiny package that only imports the std packages under warm/
 	mod := filepath.Join(scratch, "mod")
@@ -713,7 +713,7 @@ func Run(r *vf.Run) {
 	r.Assume("objects are matched across runs by kind + qualified name; `_`/init declarations by a hash of their text")
 	r.Assume("'used' in relation (iii) means the analyzer's Used verdict; a quiet object (owned by an unused owner) that becomes reported when its owner becomes used is not a violation")
 	r.Assume("files containing //lint: or //line directives keep their declaration order (only the file order is permuted)")
-	r.Finish(evals, len(nt), r.Pick(120, 3000),
+	r.Finish(evals, len(nt), r.Pick(120, 1500),
 		"evaluations = analyses compared against a base run (repetitions, permutations, added references) + CLI/package comparisons; distinct_nontrivial = distinct (package, relation) pairs, relation in {repeat, order, monotone, variants}, where the package had at least one reported and at least one used unexported package-level object (variants: additionally a test variant and a non-empty expected report)")
 }
 
